@@ -3,7 +3,8 @@
 (* wrapper.go).  Serves C20.                                                    *)
 (* A shape: [id |-> ID variant, fields |-> Seq([gotype, json, api])]            *)
 (*   id \in {"ok" (ID string `json:"id" api:"st"`), "noapi", "absent", "int",   *)
-(*           "jsonother" (json:"identifier"), "nojson"}                         *)
+(*           "jsonother" (json:"identifier"), "nojson", "last" (as "ok", declared *)
+(*           after the other fields), "named" (as "ok", of a defined string type)}*)
 (*   api: the whole api tag text; json: the json tag ("" = none)               *)
 EXTENDS Integers, Sequences, FiniteSets, TLC
 
@@ -39,7 +40,7 @@ Tagged(f) == IsAttr(f) \/ IsRel(f)
 
 \* the declaration is one the library can serve: this is what a sound Check accepts at most
 Sane(sh) ==
-    /\ sh.id = "ok"
+    /\ sh.id \in {"ok", "last", "named"}    \* ID string first, ID string after the other fields, ID of a defined string type
     /\ \A i \in 1..Len(sh.fields) : LET f == sh.fields[i] IN
           /\ IsAttr(f) => AttrKind(f.gotype).k # "unsupported" /\ JName(f) \notin {"", "id"}
           /\ IsRel(f) => /\ Len(SplitComma(f.api)) \in {2, 3}
@@ -82,4 +83,11 @@ Dev_SetWritesUntaggedNamesake(e) ==
     /\ \E i, j \in 1..Len(e.shape.fields) :
           i < j /\ ~Tagged(e.shape.fields[i]) /\ Tagged(e.shape.fields[j])
           /\ e.shape.fields[i].json = e.shape.fields[j].json
+\* (fixed) Wrapper.Set("id", "x") wrote the id twice, the second time through the generic field
+\* setter, which refuses a string for an ID field of a defined string type: Check accepts such a
+\* struct, UnmarshalResource into it panicked
+Dev_StringIDOnNamedTypePanics(e) ==
+    \* (the same second write hit a field tagged json:"id" with an unknown api tag declared before ID)
+    /\ e.ev = "struct" /\ e.obs.check = "ok" /\ Sane(e.shape)
+    /\ \E i \in 1..Len(e.obs.panics) : e.obs.panics[i] \in {"setid", "unmarshal"}
 =============================================================================
